@@ -284,7 +284,11 @@ func (b *basicCommonValidator) Validate(data interface{}) (res *Result) {
 
 	for _, enumValue := range b.Enum {
 		actualType := reflect.TypeOf(enumValue)
-		if actualType == nil { // Safeguard
+		if actualType == nil { // a null member: it matches the null instance, and nothing else
+			if data == nil {
+				return nil
+			}
+
 			continue
 		}
 
